@@ -114,6 +114,29 @@ class SeqPart(Part):
                 "last_steps": res.trace[-2:]}
 
 
+class SeqEnumPart(SeqPart):
+    """Every history of up to L calls over a fixed small menu (complete for that menu)."""
+    must_complete = True
+
+    def __init__(self, prop, family, name, max_len=(3, 4), weight=0.3, focus=None):
+        SeqPart.__init__(self, prop, name=name, weight=weight, focus=focus)
+        self.family = family
+        self.max_len = max_len
+        self.rule = ("SEQ enumeration: EVERY history of length <= %d (quick) / <= %d (thorough) over a %d-call %s menu "
+                     "(prefix-related pids, existing / never-stored cids, colliding (pid, format) pairs), same oracles "
+                     "as the random histories; complete for that menu" %
+                     (max_len[0], max_len[1], len(gen.seq_enum_menu(family)), family))
+
+    def items(self, seed, tier, worker, nworkers):
+        L = self.max_len[0] if tier == "quick" else self.max_len[1]
+        h = gen.seq_enum_header(self.family)
+        n = 0
+        for combo, ops in gen.seq_enum_programs(self.family, L):
+            if n % nworkers == worker:
+                yield n, dict(h, ops=ops, combo=list(combo))
+            n += 1
+
+
 class ConcPart(Part):
     engine = "CONC"
     name = "conc"
